@@ -5,6 +5,8 @@ import FeatherModel.Lemmas.PoolWrite
 import FeatherModel.Lemmas.CodeNoPanic
 import FeatherModel.Lemmas.ClassParse
 import FeatherModel.Lemmas.BootstrapWrite
+import FeatherModel.Lemmas.FramePositions
+import FeatherModel.Lemmas.FrameReadBackCode
 
 /-!
 # C02 — the class writer emits a well-formed file denoting exactly the given class
@@ -25,6 +27,10 @@ the trampoline `if<not c> +8; goto_w target` for `if<c> target`.
 
 Section 6 is about framing: `Spec/ClassParse.lean` (a parser written from the structure definitions of JVMS §4) reads
 back what `Model/ClassWrite.lean` lays out, so every count and `attribute_length` is exact.
+
+Section 8 is about the `StackMapTable` attribute (written since `fix:` commit 6210871): `Model/FrameWrite.lean` mirrors
+the Rust writer, `Spec/FrameDecode.lean` is a decoder transcribed from JVMS §4.7.4 and `Spec/FrameDenote.lean` says when
+the decoded table denotes the frames of the tree.
 
 Statements that cover only the Code attribute although the property speaks about the whole class file are named
 `…_partial`. The places where the Rust code used to panic instead of failing cleanly (repaired by `fix:` commits) are the
@@ -437,5 +443,366 @@ theorem lv_range_is_err :
 /-- the local variable tables never panic -/
 theorem local_variable_rows_no_panic (lp : Nat → Option Nat) (vs : List Lv) : lvRows lp vs ≠ .error .panic :=
   lvRows_no_panic lp vs
+
+/-! ## 8. The `StackMapTable` attribute (commit 6210871)
+
+`Model/FrameWrite.lean` mirrors the writer: the `frames` vector of `write_code` (`writeF`, `collect`), the body closure
+(`body`: `number_of_entries`, `offset_delta`, short / extended forms, `write_verification_type_info` with `put_class` /
+`labels.try_get`) and `write_attribute` (`attr`). `Spec/FrameDecode.lean` decodes a `StackMapTable` body as JVMS §4.7.4
+describes it (absolute offsets: `offset_delta` for the first frame, `previous + offset_delta + 1` afterwards);
+`Spec/FrameDenote.lean` says when the decoded table denotes the frames of the tree (`denotesAll`: same offsets, same
+kinds, `Object` indices designate a `CONSTANT_Class_info` of that name in the pool that is written, `Uninitialized`
+offsets are the offsets of their labels). All theorems hold for any number of frames, locals and stack items. -/
+
+section Frames
+open FrameWrite FrameDecode FrameDenote
+
+/-- the positions `write_code` records for the instructions increase strictly and fit `u16`: every instruction is
+written with at least one byte (no `wt` hypothesis needed) -/
+theorem instruction_positions_increase (is : List Insn) (res : Result) (h : writeCode is = .ok res) :
+    res.pos.toList.Pairwise (· < ·) ∧ ∀ x ∈ res.pos.toList, x ≤ 65535 := by
+  obtain ⟨a, b⟩ := sortedFrom_spec (writeCode_pos_sorted is res h)
+  exact ⟨a, fun x hx => (b x hx).2⟩
+
+/-- **`frames.clear()`**: the retry loop with the `frames` vector (`writeF`) computes what the loop without it
+computes, and on success the vector holds the pushes of the final attempt only — each frame once, at the final
+position of its instruction (without the `clear` the frames of every abandoned attempt would precede them) -/
+theorem frames_of_final_attempt (is : List Insn) (fs : List (Option Frame)) :
+    (writeF is fs (is.length + 1) [] []).1 = writeCode is ∧
+    ∀ res, writeCode is = .ok res → (writeF is fs (is.length + 1) [] []).2 = framesOf res fs :=
+  writeF_spec is fs (is.length + 1) []
+
+/-- the frames `write_code` hands to the `StackMapTable` writer are at strictly increasing `u16` offsets: the
+hypothesis `Incr none` of the theorems below always holds there -/
+theorem collected_frames_increase (is : List Insn) (res : Result) (h : writeCode is = .ok res)
+    (fs : List (Option Frame)) : Incr none (framesOf res fs) :=
+  collect_incr _ fs 0 none (writeCode_pos_sorted is res h) trivial
+
+/-- …and its label table has `u16` offsets only -/
+theorem result_labels_u16 (is : List Insn) (res : Result) (h : writeCode is = .ok res) : LpOk res.label :=
+  fun t x ht => result_label_le is res h t x ht
+
+/-- a frame is collected for instruction `k` exactly when instruction `k` carries one, and it is attached to the
+position of instruction `k` -/
+theorem collected_frame_iff (res : Result) (fs : List (Option Frame)) (pc : Nat) (f : Frame) :
+    (pc, f) ∈ framesOf res fs ↔ ∃ k : Nat, res.pos[k]? = some pc ∧ fs[k]? = some (some f) := by
+  constructor
+  · intro h
+    obtain ⟨k, h1, h2⟩ := mem_collect _ fs pc f h
+    exact ⟨k, by simpa using h1, h2⟩
+  · rintro ⟨k, h1, h2⟩
+    exact collect_mem _ fs k pc f (by simpa using h1) h2
+
+/-- **Reading back the `StackMapTable`.** For every list of frames at strictly increasing `u16` offsets (any number
+of frames, locals, stack items): if the body closure succeeds, the decoder of JVMS §4.7.4 decodes the *whole* body
+(nothing left over) to a table that denotes exactly these frames: as many, in this order, each at the same absolute
+offset, of the same kind, every verification type the same item; an `Object` type's index designates a class entry of
+that name in the resulting pool, an `Uninitialized` type's offset is the offset of its label. -/
+theorem frames_write_read (lp : Nat → Option Nat) (hlp : LpOk lp) (p p' : PoolWrite.Pool) (hw : p.WF)
+    (hc : p.count ≤ 65535) (fs : List (Nat × Frame)) (hinc : Incr none fs) (b : Bytes)
+    (h : body lp p fs = .ok (b, p')) :
+    ∃ ds, table b = some ds ∧ denotesAll lp p' fs ds = true := by
+  obtain ⟨_, _, _, _, ds, h1, h2, _⟩ := body_spec hlp fs ⟨hw, hc⟩ hinc h
+  exact ⟨ds, h1, h2⟩
+
+/-- the same for the frames of a method: what `write_code` writes for the frames attached to the instructions `is`
+decodes to frames that denote them -/
+theorem code_frames_write_read (is : List Insn) (res : Result) (hres : writeCode is = .ok res)
+    (fs : List (Option Frame)) (p p' : PoolWrite.Pool) (hw : p.WF) (hc : p.count ≤ 65535) (b : Bytes)
+    (h : body res.label p (framesOf res fs) = .ok (b, p')) :
+    ∃ ds, table b = some ds ∧ denotesAll res.label p' (framesOf res fs) ds = true :=
+  frames_write_read res.label (result_labels_u16 is res hres) p p' hw hc _ (collected_frames_increase is res hres fs) b h
+
+/-- **every frame stays attached to its instruction**: the decoded table has a frame at the position of
+instruction `k` denoting the frame instruction `k` carries — and no other frames -/
+theorem frame_at_instruction (is : List Insn) (res : Result) (hres : writeCode is = .ok res)
+    (fs : List (Option Frame)) (p p' : PoolWrite.Pool) (hw : p.WF) (hc : p.count ≤ 65535) (b : Bytes)
+    (h : body res.label p (framesOf res fs) = .ok (b, p')) :
+    ∃ ds, table b = some ds ∧
+      (∀ (k : Nat) (pc : Nat) (f : Frame), res.pos[k]? = some pc → fs[k]? = some (some f) →
+        ∃ d, (pc, d) ∈ ds ∧ denotesF res.label p' f d = true) ∧
+      (∀ (o : Nat) (d : DFrame), (o, d) ∈ ds →
+        ∃ (k : Nat) (f : Frame), res.pos[k]? = some o ∧ fs[k]? = some (some f) ∧ denotesF res.label p' f d = true) := by
+  obtain ⟨ds, h1, h2⟩ := code_frames_write_read is res hres fs p p' hw hc b h
+  refine ⟨ds, h1, fun k pc f hk hf => ?_, fun o d hm => ?_⟩
+  · have hm := (collected_frame_iff res fs pc f).mpr ⟨k, hk, hf⟩
+    obtain ⟨j, hj⟩ := List.getElem?_of_mem hm
+    obtain ⟨d, hd, hden⟩ := denotesAll_get h2 j pc f hj
+    exact ⟨d, List.mem_of_getElem? hd, hden⟩
+  · obtain ⟨j, hj⟩ := List.getElem?_of_mem hm
+    obtain ⟨f, hf, hden⟩ := denotesAll_get_rev h2 j o d hj
+    obtain ⟨k, hk1, hk2⟩ := (collected_frame_iff res fs o f).mp (List.mem_of_getElem? hf)
+    exact ⟨k, f, hk1, hk2, hden⟩
+
+/-- `number_of_entries` is exact: the body starts with the number of frames as a `u2`, at most 65535, and the
+decoder finds exactly that many frames -/
+theorem frames_count_exact (lp : Nat → Option Nat) (hlp : LpOk lp) (p p' : PoolWrite.Pool) (hw : p.WF)
+    (hc : p.count ≤ 65535) (fs : List (Nat × Frame)) (hinc : Incr none fs) (b : Bytes)
+    (h : body lp p fs = .ok (b, p')) :
+    fs.length ≤ 65535 ∧ (∃ bs, b = u16b fs.length ++ bs) ∧ ∀ ds, table b = some ds → ds.length = fs.length := by
+  obtain ⟨hl, _, _, _, ds, h1, h2, bs, hb, _⟩ := body_spec hlp fs ⟨hw, hc⟩ hinc h
+  refine ⟨hl, ⟨bs, hb⟩, fun ds' hds' => ?_⟩
+  rw [h1] at hds'; cases hds'
+  exact denotesAll_length h2
+
+/-- the pool only grows while the frames are written: it stays well formed, the count stays a `u16`, and every index
+handed out before keeps its meaning (so the indices used by the instructions and the exception table stay valid) -/
+theorem frames_pool_grows (lp : Nat → Option Nat) (hlp : LpOk lp) (p p' : PoolWrite.Pool) (hw : p.WF)
+    (hc : p.count ≤ 65535) (fs : List (Nat × Frame)) (hinc : Incr none fs) (b : Bytes)
+    (h : body lp p fs = .ok (b, p')) :
+    p'.WF ∧ p'.count ≤ 65535 ∧ p.count ≤ p'.count ∧ ∀ j e, p.get j = some e → p'.get j = some e := by
+  obtain ⟨_, hg, hle, hcnt, _⟩ := body_spec hlp fs ⟨hw, hc⟩ hinc h
+  exact ⟨hg.1, hg.2, hcnt, hle⟩
+
+/-- **short or extended form**: `same_frame` (`frame_type = offset_delta`) and `same_locals_1_stack_item_frame`
+(`frame_type = 64 + offset_delta`) are used exactly for `offset_delta ≤ 63`, otherwise `same_frame_extended` (251) and
+`same_locals_1_stack_item_frame_extended` (247) with a `u2 offset_delta`; chop, append and full frames always carry the
+`u2` -/
+theorem frame_form_choice (lp : Nat → Option Nat) (p : PoolWrite.Pool) (d : Nat) :
+    (d ≤ 63 → writeFrame lp p d .same = .ok ([d], p)) ∧
+    (63 < d → writeFrame lp p d .same = .ok (251 :: u16b d, p)) ∧
+    (∀ v b p', writeVType lp p v = .ok (b, p') →
+      (d ≤ 63 → writeFrame lp p d (.same1 v) = .ok ((64 + d) :: b, p')) ∧
+      (63 < d → writeFrame lp p d (.same1 v) = .ok (247 :: (u16b d ++ b), p'))) ∧
+    (∀ k, 1 ≤ k → k ≤ 3 → writeFrame lp p d (.chop k) = .ok ((251 - k) :: u16b d, p)) := by
+  refine ⟨fun h => by simp [writeFrame, h], fun h => ?_, fun v b p' hv => ⟨fun h => by simp [writeFrame, hv, h], fun h => ?_⟩,
+    fun k h1 h2 => by simp [writeFrame, h1, h2]⟩
+  · have : ¬ d ≤ 63 := by omega
+    simp [writeFrame, this]
+  · have : ¬ d ≤ 63 := by omega
+    simp [writeFrame, hv, this]
+
+/-- `offset_delta` is the offset itself for the first frame and the distance to the previous frame minus one
+afterwards; the decoder's rule (`previous + offset_delta + 1`) gives the offset back -/
+theorem offset_delta_exact (prev : Option Nat) (o : Nat)
+    (h : match prev with | none => True | some q => q < o) (ho : o ≤ 65535) :
+    ∃ d, offsetDelta prev o = .ok d ∧ d ≤ 65535 ∧ applyOffset prev d = o :=
+  offsetDelta_ok h ho
+
+/-- an `Uninitialized` type is written as tag 8 and the bytecode offset of its label -/
+theorem uninitialized_offset_is_label_position (lp : Nat → Option Nat) (p p' : PoolWrite.Pool) (l : Nat) (b : Bytes)
+    (h : writeVType lp p (.uninit l) = .ok (b, p')) : ∃ o, lp l = some o ∧ b = 8 :: u16b o ∧ p' = p := by
+  simp only [writeVType] at h
+  split at h
+  · cases h
+  · rename_i o ho
+    cases h
+    exact ⟨o, ho, rfl, rfl⟩
+
+/-- an `Object` type is written as tag 7 and the index `put_class` returns; that index designates a
+`CONSTANT_Class_info` naming the class, now and in every later pool -/
+theorem object_index_is_class (lp : Nat → Option Nat) (p p' : PoolWrite.Pool) (hw : p.WF) (hc : p.count ≤ 65535)
+    (c : JStr) (b : Bytes) (h : writeVType lp p (.object c) = .ok (b, p')) :
+    ∃ i, PoolWrite.putClass p c = some (i, p') ∧ b = 7 :: u16b i ∧ i ≤ 65535 ∧ clsAt p' c i = true ∧
+      ∀ q : PoolWrite.Pool, (∀ j e, p'.get j = some e → q.get j = some e) → clsAt q c i = true := by
+  simp only [writeVType] at h
+  split at h
+  · cases h
+  · rename_i i p1 hp
+    cases h
+    obtain ⟨_, _, hcl, hi, _⟩ := FramePool.putClass_good ⟨hw, hc⟩ hp
+    exact ⟨i, hp, rfl, hi, hcl, fun q hq => FramePool.clsAt_le hq hcl⟩
+
+/-- **Clean failure**: for frames at increasing offsets neither the body closure nor `write_attribute` around it
+panics (the unchecked `offset - previous - 1` cannot underflow) -/
+theorem frames_write_fails_cleanly (lp : Nat → Option Nat) (p : PoolWrite.Pool) (fs : List (Nat × Frame))
+    (hinc : Incr none fs) : body lp p fs ≠ .error .panic ∧ attr lp p fs ≠ .error .panic :=
+  ⟨fun h => (by have := body_err lp fs p hinc _ h; cases this), fun h => (by have := attr_err lp fs p hinc _ h; cases this)⟩
+
+/-- …so the `StackMapTable` of a method is written or refused with the explicit error, whatever frames the
+instructions carry -/
+theorem code_frames_never_panic (is : List Insn) (res : Result) (hres : writeCode is = .ok res)
+    (fs : List (Option Frame)) (p : PoolWrite.Pool) : attr res.label p (framesOf res fs) ≠ .error .panic :=
+  (frames_write_fails_cleanly res.label p _ (collected_frames_increase is res hres fs)).2
+
+/-- success ⇒ at most 65535 frames, every chop count and append length in `1..=3`, every count a `u2`, every
+`Uninitialized` label has an offset -/
+theorem frames_write_ok_only (lp : Nat → Option Nat) (p p' : PoolWrite.Pool) (fs : List (Nat × Frame)) (b : Bytes)
+    (h : body lp p fs = .ok (b, p')) : tableOk lp fs = true :=
+  body_ok_imp h
+
+/-- **Failure, exactly.** While the constant pool has room for the classes of the `Object` types (two entries each
+at most), writing fails — with the explicit error — exactly when the table is not expressible: more than 65535
+frames, a chop count or append length outside `1..=3`, more than 65535 locals or stack items, or an `Uninitialized`
+label without bytecode offset. -/
+theorem frames_write_fails_iff (lp : Nat → Option Nat) (p : PoolWrite.Pool) (fs : List (Nat × Frame))
+    (hinc : Incr none fs) (hroom : p.count + 2 * objectsAll fs ≤ 65535) :
+    body lp p fs = .error .err ↔ tableOk lp fs = false := by
+  constructor
+  · intro h
+    cases hok : tableOk lp fs with
+    | false => rfl
+    | true =>
+      obtain ⟨b, p', hb⟩ := body_ok_of fs p hinc hok hroom
+      rw [hb] at h; cases h
+  · intro h
+    cases hb : body lp p fs with
+    | ok r =>
+      obtain ⟨b, p'⟩ := r
+      rw [body_ok_imp hb] at h; cases h
+    | error e => rw [body_err lp fs p hinc e hb]
+
+/-- without the room hypothesis the only further reason is the constant pool overflowing (`put_class`) -/
+theorem frames_write_error_reasons (lp : Nat → Option Nat) (p : PoolWrite.Pool) (fs : List (Nat × Frame))
+    (hinc : Incr none fs) (e : Fail) (h : body lp p fs = .error e) :
+    e = .err ∧ (tableOk lp fs = false ∨ 65535 < p.count + 2 * objectsAll fs) := by
+  refine ⟨body_err lp fs p hinc e h, ?_⟩
+  cases hok : tableOk lp fs with
+  | false => exact Or.inl rfl
+  | true =>
+    refine Or.inr ?_
+    apply Decidable.byContradiction
+    intro hn
+    obtain ⟨b, p', hb⟩ := body_ok_of fs p hinc hok (by omega)
+    rw [hb] at h; cases h
+
+/-- `write_attribute`: the body closure runs first (the classes of `Object` types enter the pool), then the name
+`StackMapTable`, and `attribute_length` fits `u4`; no frames, no attribute -/
+theorem frames_attribute_layout (lp : Nat → Option Nat) (p p2 : PoolWrite.Pool) (fs : List (Nat × Frame))
+    (a : Option (Nat × Bytes)) (h : attr lp p fs = .ok (a, p2)) :
+    (fs = [] → a = none ∧ p2 = p) ∧
+    (fs ≠ [] → ∃ i b p1, a = some (i, b) ∧ body lp p fs = .ok (b, p1) ∧
+      PoolWrite.putUtf8 p1 sStackMapTable = some (i, p2) ∧ b.length ≤ 4294967295) := by
+  unfold attr at h
+  split at h
+  · rename_i he
+    cases h
+    simp only [List.isEmpty_iff] at he
+    exact ⟨fun _ => ⟨rfl, rfl⟩, fun hne => absurd he hne⟩
+  · rename_i he
+    simp only [List.isEmpty_iff] at he
+    refine ⟨fun h0 => absurd h0 he, fun _ => ?_⟩
+    split at h
+    · cases h
+    · rename_i b p1 hb
+      split at h
+      · cases h
+      · rename_i i p2' hp
+        split at h
+        · cases h
+        · rename_i hlen
+          cases h
+          exact ⟨i, b, p1, rfl, hb, hp, by omega⟩
+
+/-- its `attribute_length` is the length of the body: the framing parser of section 6 reads the attribute back -/
+theorem frames_attribute_length_exact (i : Nat) (b rest : Bytes) (hi : i ≤ 65535) (hb : b.length ≤ 4294967295) :
+    ClassParse.attrs 1 (ClassWrite.attrsBytes [(i, b)] ++ rest) = some ([(i, b)], rest) :=
+  ClassParse.attrs_attrsBytes [(i, b)] (fun a ha => by simp at ha; subst ha; exact ⟨hi, hb⟩) rest
+
+/-- regression shapes: a chop frame removing 0 or 4 locals, an append frame adding 0 or 4, an `Uninitialized` type
+whose label no instruction carries — all refused with the explicit error -/
+theorem chop_append_out_of_range_is_err (lp : Nat → Option Nat) (p : PoolWrite.Pool) (o : Nat) :
+    body lp p [(o, .chop 0)] = .error .err ∧ body lp p [(o, .chop 4)] = .error .err ∧
+    body lp p [(o, .append [])] = .error .err ∧
+    body lp p [(o, .append [.int, .int, .int, .int])] = .error .err := by
+  refine ⟨?_, ?_, ?_, ?_⟩ <;> simp [body, writeFrames, offsetDelta, writeFrame]
+
+theorem uninitialized_unknown_label_is_err (lp : Nat → Option Nat) (p : PoolWrite.Pool) (o l : Nat) (hl : lp l = none) :
+    body lp p [(o, .same1 (.uninit l))] = .error .err := by
+  simp [body, writeFrames, offsetDelta, writeFrame, writeVType, hl]
+
+/-- non-vacuity: a method `nop; new C; return` (label 1 on the `new`) with an append frame at offset 0 (Integer,
+`Object C` at the class entry the `new` uses, index 2), a same-locals-1 frame at offset 1 whose stack item is the
+uninitialised object created at label 1, and a chop frame 70 bytes further on (extended delta); the decoder of
+JVMS §4.7.4 reads the body back -/
+example :
+    let lp : Nat → Option Nat := fun t => if t = 1 then some 1 else none
+    let p0 := PoolWrite.empty
+    ∃ i p1 b p2, PoolWrite.putClass p0 (jstr "C") = some (i, p1) ∧
+      body lp p1 [(0, .append [.int, .object (jstr "C")]), (1, .same1 (.uninit 1)), (72, .chop 2)] = .ok (b, p2) ∧
+      b = [0, 3, 253, 0, 0, 1, 7, 0, 2, 64, 8, 0, 1, 249, 0, 70] ∧ p2.count = 3 ∧
+      table b = some [(0, .append [.int, .object 2]), (1, .same1 (.uninit 1)), (72, .chop 2)] := by
+  refine ⟨2, _, _, _, rfl, rfl, ?_, ?_, ?_⟩ <;> decide
+
+example : Incr none [(0, Frame.same), (64, .chop 1), (65535, .full [] [.top])] := by simp [Incr]
+
+/-- why `Incr` is a hypothesis of `frames_write_fails_cleanly`: two frames at the same offset would make the unchecked
+`offset - previous - 1` underflow (a panic with overflow checks on); `collected_frames_increase` shows that
+`write_code` never produces such a list -/
+example : body (fun _ => none) PoolWrite.empty [(5, .same), (5, .same)] = .error .panic := by rfl
+
+end Frames
+
+/-! ## 9. The written `StackMapTable`, read by the reader model of C01
+
+`Model/ClassReadCode.lean` (`ClassRead.readFrames`) is C01's model of duke's *reader*; `ClassRead.Spec.encFrames`
+(Spec/ClassEncode.lean) is the JVMS §4.7.4 encoder C01's round-trip theorem is stated with. -/
+
+section ReadBack
+open FrameWrite FrameDenote FrameReadBack
+
+/-- **writer = specification encoder.** The entries the writer emits for frames attached to instruction indices are,
+byte for byte, what C01's specification encoder assigns to the layout `sFrames` (instruction index, compact form iff
+`offset_delta ≤ 63`, pool index of every `Object` type): the writer and the specification the reader is proved against
+agree on the format -/
+theorem frames_write_is_spec_encoding (lp : Nat → Option Nat) (ifs : List (Nat × Frame)) (p p' : PoolWrite.Pool)
+    (hinc : IdxIncr lp none ifs) (bs : Bytes) (h : writeFrames lp p none (atPositions lp ifs) = .ok (bs, p')) :
+    ∃ sfs, sFrames lp p none ifs = some (sfs, p') ∧ bs = ClassRead.Spec.encFrames (posOf lp) none sfs ∧
+      sfs.length = ifs.length :=
+  writeFrames_enc ifs none hinc h
+
+/-- **Write, then read with the reader model.** For a method of well-typed instructions whose frames were written
+(`body … = .ok`): C01's reader model `ClassRead.readFrames`, run on the written entries (whatever follows them) with
+
+* any reader pool that resolves the written class indices to the class names (`PoolAgrees`),
+* any well-formed reader label table for this code array with room for the labels it needs (`labelDemand`),
+
+succeeds, consumes exactly the written bytes and returns exactly the frames of the tree: the frame of instruction `k`
+attached to the reader's label of the offset of instruction `k`, every type the same item, `Uninitialized` types
+carrying the reader's label of the offset of their (instruction) label. -/
+theorem frames_read_back (is : List Insn) (hwt : ∀ i ∈ is, wt i = true) (res : Result)
+    (hres : writeCode is = .ok res) (fs : List (Option Frame)) (p p' : PoolWrite.Pool) (hw : p.WF)
+    (hc : p.count ≤ 65535) (b : Bytes) (h : body res.label p (framesOf res fs) = .ok (b, p'))
+    (hu : ∀ f, some f ∈ fs → frameUninitBelow is.length f)
+    (rp : ClassRead.Pool) (ha : PoolAgrees p' rp)
+    (l : ClassRead.Labels) (hwf : l.WF) (hcl : l.codeLength = res.code.length)
+    (hroom : l.count + ((framesOf res fs).map (fun x => labelDemand x.2)).sum < 65536) (r : Bytes) :
+    ∃ (ifs : List (Nat × Frame)) (bs : Bytes) (v : List (Nat × ClassRead.Frame)) (l' : ClassRead.Labels),
+      framesOf res fs = atPositions res.label ifs ∧
+      (∀ x ∈ ifs, x.1 < is.length ∧ fs[x.1]? = some (some x.2)) ∧
+      b = u16b ifs.length ++ bs ∧
+      ClassRead.readFrames rp ifs.length true 0 l (bs ++ r) = .ok (v, l', r) ∧ l'.WF ∧ ClassRead.Labels.Le l l' ∧
+      ∀ lf, ClassRead.Labels.Le l' lf →
+        v = ifs.map (fun x => (ClassRead.labOf lf (posOf res.label) x.1, readFrameOf lf res.label x.2)) := by
+  obtain ⟨hP, hmono, hpos⟩ := result_pos_ok is hwt res hres
+  have hsz := writeCode_pos_size is res hres
+  let ifs := collectIdx 0 res.pos.toList fs
+  have heq : framesOf res fs = atPositions res.label ifs := collect_eq res.label _ fs 0 hP
+  have hbound := collectIdx_bound res.pos.toList fs 0
+  have hlen : res.pos.toList.length = is.length := by simpa using hsz
+  have hinc : IdxIncr res.label none ifs :=
+    collectIdx_incr res.label is.length hmono (by have := hpos.le is.length (Nat.le_refl _); have := hpos.small; omega)
+      _ fs 0 none (by omega) trivial
+  obtain ⟨_, _, _, _, _, _, _, bs, hb, hws⟩ := body_spec (result_labels_u16 is res hres) _ ⟨hw, hc⟩
+    (collected_frames_increase is res hres fs) h
+  rw [heq] at hws
+  have hidx : ∀ x ∈ ifs, x.1 < is.length ∧ fs[x.1]? = some (some x.2) := by
+    intro x hx
+    obtain ⟨_, h2, h3⟩ := hbound x hx
+    exact ⟨by omega, by simpa using h3⟩
+  obtain ⟨sfs, hs, hl, hread⟩ := readFrames_written ifs ⟨hw, hc⟩ hws is.length res.code.length hpos hmono hinc
+    (fun x hx => (hidx x hx).1)
+    (fun x hx => hu x.2 (List.mem_of_getElem? (hidx x hx).2)) rp ha l hwf hcl r
+  have hdem : (sfs.map (fun f => f.kind.labelRefs + 1)).sum = ((framesOf res fs).map (fun x => labelDemand x.2)).sum := by
+    rw [sFrames_refs ifs none hs, heq]
+    simp [atPositions, List.map_map, Function.comp_def]
+  obtain ⟨v, l', h1, h2, h3, h4⟩ := hread (by rw [hdem]; exact hroom)
+  refine ⟨ifs, bs, v, l', heq, hidx, ?_, h1, h2, h3, h4⟩
+  rw [hb, heq]
+  simp [atPositions]
+
+/-- non-vacuity: the entries written in the example of section 8 (`append [Integer, Object C]` at offset 0,
+`same_locals_1 [Uninitialized(label 1)]` at offset 1, `chop 2` at offset 72), read by the reader model with a pool whose
+entry 2 is the class `C` and a fresh label table for 75 bytes of code: the three frames come back attached to the
+labels of the offsets 0, 1, 72 (ids 0, 1, 2), the uninitialised object carrying the label of offset 1 -/
+example :
+    (match ClassRead.readFrames [none, some (.utf8 (jstr "C")), some (.cls 1)] 3 true 0 (ClassRead.Labels.new 75)
+        [253, 0, 0, 1, 7, 0, 2, 64, 8, 0, 1, 249, 0, 70] with
+      | .ok (v, l, r) => some (v, l.get 0, l.get 1, l.get 72, l.count, r)
+      | _ => none) =
+    some ([(0, .append [.int, .object (jstr "C")]), (1, .same1 (.uninit 1)), (2, .chop 2)], some 0, some 1, some 2, 3, []) := by
+  rfl
+
+end ReadBack
 
 end Thm.C02
